@@ -84,7 +84,7 @@ def run_dchain(side: H.Side, desc: dict):
     Returns (attempts, findings): attempts = list of dicts for the Coq comparison."""
     src = pat(*desc['src']) if desc.get('src') else None
     local0 = sl(desc['local0']) if desc.get('local0') is not None else None
-    tr = side.new_download(local0, desc.get('bt0'))
+    tr = side.new_download(local0, desc.get('bt0'), desc.get('listener'))
     attempts = []
     findings = []
     lspecs = [list(desc['local0'])] if desc.get('local0') is not None else []
@@ -181,7 +181,7 @@ def run_dbl(side: H.Side, desc: dict):
     seed, n = desc['src']
     src = pat(seed, n)
     l0 = desc.get('local0')
-    tr = side.new_download(src[:l0] if l0 is not None else None)
+    tr = side.new_download(src[:l0] if l0 is not None else None, None, desc.get('listener'))
     findings = []
     wit = {'kind': 'dd', 'desc': desc}
     try:
@@ -279,7 +279,10 @@ def run_pair(desc: dict):
     try:
         P.start()
         P.begin_download()
-        P.run(desc.get('horizon', 3000))
+        if desc.get('script'):
+            P.run_script(desc['script'], desc.get('horizon', 3000))
+        else:
+            P.run(desc.get('horizon', 3000))
         snap = P.snapshot()
         unhandled = [str(c.get('exception') or c.get('message'))[:200] for c in P.loop.unhandled]
     finally:
@@ -493,6 +496,11 @@ def gen_dchains(run: Run):
         for segs in ([k], [n - (l0n or 0), extra]):
             chains.append(('dishonest-more', {'src': None, 'local0': ([11, max(l0n, 1), 0, l0n] if l0n is not None else None),
                                              'sessions': [{'a': n, 'ok': True, 'kbps': kbps, 'sender': ['raw', [29, k + 3, 1, k], 'timeout'], 'segs': segs}]}))
+    # helpers: a late registered state listener that suspends inside every transition
+    for n, faults in [(129, [('reset', 64)]), (8193, [('eof', 8192), ('reset', 1)]), (300, []), (0, [])]:
+        c = honest_chain(rng, n, faults)
+        c['listener'] = 'suspend'
+        chains.append(('slow-listener', c))
     # dishonest senders
     ndis = 50 if run.tier == 'quick' else 1200
     for _ in range(ndis):
@@ -585,6 +593,8 @@ def gen_dbl(run: Run):
         for plan in ({'first': n // 3}, {'first': n // 3, 'open_b_first': True}, {'first': 0, 'order': 'BA'}, {'first': n, 'order': 'AB'},
                      {'first': rng.randrange(0, n + 1), 'order': rng.choice(['AB', 'BA']), 'open_b_first': rng.random() < 0.5}):
             out.append({'src': [rng.randrange(251), n], 'local0': rng.choice([None, None, 0, n // 2]), 'plan': plan})
+    out.append({'src': [rng.randrange(251), 300], 'local0': None, 'plan': {'first': 100, 'open_b_first': True}, 'listener': 'suspend'})
+    out.append({'src': [rng.randrange(251), 8193], 'local0': 10, 'plan': {'first': 0, 'order': 'BA'}, 'listener': 'suspend'})
     return out
 
 
@@ -601,6 +611,17 @@ def gen_pairs(run: Run):
     # slow receiver: the uploader's transport keeps unsent chunks by reference
     for n, kd, ku, bp in [(3 * 8192 + 5, 20, 0, 0.3), (70000, 0, 0, 0.05)] + ([(70000, 50, 100, 1.0)] if run.tier != 'quick' else []):
         out.append({'src': [rng.randrange(251), n], 'faults': [], 'kbps_down': kd, 'kbps_up': ku, 'bp': bp})
+    # helpers: user calls that cancel the transfer task inside a helper (pause while a chunk is in flight, then
+    # queue again), and limiter objects replaced as a whole while the transfer runs
+    N4 = 3 * 8192 + 5
+    scripts = [
+        [[0.5, 'pause', None], [3.0, 'queue', None]],
+        [[0.3, 'limit_down', 5], [1.0, 'limit_down', 0], [1.2, 'limit_up', 10], [2.0, 'limit_up', 0]],
+        [[0.4, 'pause_up', None], [2.0, 'queue_up', None]],
+        [[0.2, 'pause', None], [0.6, 'limit_down', 0], [2.0, 'queue', None], [2.3, 'pause', None], [5.0, 'queue', None]],
+    ]
+    for sc in (scripts if run.tier != 'quick' else scripts[:3]):
+        out.append({'src': [rng.randrange(251), N4], 'faults': [], 'kbps_down': 20, 'kbps_up': 20, 'script': sc})
     # cuts
     ncut = 12 if run.tier == 'quick' else 200
     for _ in range(ncut):
@@ -680,6 +701,25 @@ def run(run: Run):
         except Exception as e:        # never fail open
             run.add_broken('prove crashed', f'{type(e).__name__}: {e}')
 
+    # Is the tie intact?  (pure Python, milliseconds.)  When the translator refuses or a pinned function /
+    # helper changed, the directed search is the LONG one: thorough-size generators (more cuts, segmentations,
+    # dishonest senders, pair runs with cuts, scripts and delays), whatever tier was asked for.
+    try:
+        from translate import tr_c04
+        from vlib.common import SRC as _SRC
+        gen_text = tr_c04.translate(_SRC)['C04Gen.v']
+        gu = int(re.search(r'grant_unlimited : Z := (\d+)', gen_text).group(1))
+        gl = int(re.search(r'grant_limited : Z := (\d+)', gen_text).group(1))
+        if (gu, gl) != (H.GRANT_UNLIMITED, H.GRANT_LIMITED):
+            raise BrokenTie('harness constants', f'rate limiter grants {gu}/{gl} differ from the harness constants')
+        tie_ok = True
+    except Exception as e:
+        tie_ok = False
+        log(f'[C04] tie broken ({type(e).__name__}: {str(e)[:200]}): running the long directed search')
+        run.notes.append('tie broken: long directed search (thorough-size generators) was run')
+    asked_tier = run.tier
+    if not tie_ok:
+        run.tier = 'thorough'
     builder = threading.Thread(target=build_first)
     builder.start()
 
@@ -830,6 +870,7 @@ def run(run: Run):
         run.add_broken(e.obligation, e.detail)
     evaluator.join()
     prover.join()
+    run.tier = asked_tier
     log(f'[C04] coq evaluation joined {_time.time()-_t0:.1f}s')
     if unhandled:
         run.notes.append('unhandled task exceptions seen by the loop (single side): ' + '; '.join(sorted(set(unhandled))[:5]))
